@@ -25,6 +25,7 @@ def _replay(job, phase):
     m = dro.Model(NS)
     z = m.rvar(2)
     t = {1: m.dvar()}
+    own = {}
     pending = [1]          # lower bounds t_k >= -10 are added once the ambiguity set exists (ambiguity() refuses to run after st())
     fset = None
     solved_any = False
@@ -57,9 +58,16 @@ def _replay(job, phase):
                 k = args[0]
                 for s in range(NS):
                     t[k].adapt(s)
+            elif act == 'ownset':
+                own[args[0]] = args[1]
             elif act == 'st':
                 k = args[0]
-                m.st(t[k] >= A[k] @ z)
+                c_ = (t[k] >= A[k] @ z)
+                if k in own:
+                    # the constraint carries its own support (raw support constraints, as a list / a tuple)
+                    its = item_constraints(rso, z, [] if own[k] == ['noset'] else own[k])
+                    c_ = c_.forall(list(its) if si % 2 else tuple(its))
+                m.st(c_)
             elif act == 'do_math':
                 f1 = m.do_math()
                 if formula_sig(m.do_math()) != formula_sig(f1):
